@@ -51,16 +51,17 @@ var impWants = []impWant{
 		funcs: []string{"SubstitutionMatrix.Get", "decideOnStep", "traceAlignmentSteps", "Global",
 			"argmax", "traceAlignmentStepsLocal", "Local"}},
 	{dir: "formats/fasta", pkg: "fasta", funcs: []string{"Fasta.Write"}, join: true},
-	{dir: "formats/fasta", pkg: "fastard", funcs: []string{"reader.read"}, errZ: true},
+	{dir: "formats/fasta", pkg: "fastard", funcs: []string{"reader.read", "reader.iter"}, errZ: true},
 	{dir: "formats/fastq", pkg: "fastq", funcs: []string{"Fastq.Write"}, join: true},
-	{dir: "formats/fastq", pkg: "fastqrd", funcs: []string{"reader.read"}, errZ: true, join: true},
+	{dir: "formats/fastq", pkg: "fastqrd", funcs: []string{"reader.read", "reader.iter"}, errZ: true, join: true},
 	{dir: "formats/bed", pkg: "bed", funcs: []string{"BED.Write", "parseLine"}, join: true},
 	{dir: "formats/newick", pkg: "newick", funcs: []string{"quoted", "nameFromText", "nameToText", "Node.traverse"}, floatAs: "F"},
 }
 
 type impFn struct {
-	name string
-	fuel bool
+	name   string
+	fuel   bool
+	stream bool // takes and returns the stream state rd__
 }
 
 type opener struct{ open, close string }
@@ -778,10 +779,22 @@ func (t *impTr) call(e *ast.CallExpr, pre *[]opener) string {
 	}
 	obj := t.calleeObj(e.Fun)
 	if obj != nil && t.yield != nil && obj == t.yield {
-		if len(e.Args) != 1 {
+		if len(e.Args) != 1 && len(e.Args) != 2 {
 			t.fail(e, "callback with %d arguments", len(e.Args))
 		}
-		x := t.ex(e.Args[0], pre)
+		ysig := obj.Type().(*types.Signature)
+		var xs []string
+		for i, a := range e.Args {
+			if id, ok := a.(*ast.Ident); ok && id.Name == "nil" {
+				xs = append(xs, t.zero(ysig.Params().At(i).Type()))
+				continue
+			}
+			xs = append(xs, t.ex(a, pre))
+		}
+		x := strings.Join(xs, ", ")
+		if len(xs) > 1 {
+			x = "(" + x + ")"
+		}
 		v := t.fresh()
 		*pre = append(*pre, opener{fmt.Sprintf("(let out__ := out__ ++ [%s] in let %s := true in ", x, v), ")"})
 		return v
@@ -953,6 +966,9 @@ func (t *impTr) assigned(n ast.Node) ([]types.Object, int) {
 					yields |= 1
 				}
 				if t.stream && isBufioMethod(o) {
+					yields |= 2
+				}
+				if fn, ok := t.fns[o]; ok && fn.stream {
 					yields |= 2
 				}
 				if o.Pkg() != nil {
@@ -1418,12 +1434,22 @@ func (t *impTr) assign(s *ast.AssignStmt, pre *[]opener) {
 			t.fuel = true
 			args = append(args, "fuel")
 		}
+		if fn.stream {
+			args = append(args, "rd__")
+		}
 		for _, a := range call.Args {
 			args = append(args, t.ex(a, pre))
 		}
 		var tmps []string
 		for range s.Lhs {
 			tmps = append(tmps, t.fresh())
+		}
+		if fn.stream {
+			*pre = append(*pre, opener{fmt.Sprintf("go_call (%s %s) (fun '(rd__, (%s)) => ", fn.name, strings.Join(args, " "), strings.Join(tmps, ", ")), ")"})
+			for i, l := range s.Lhs {
+				t.store(l, tmps[i], pre)
+			}
+			return
 		}
 		*pre = append(*pre, opener{fmt.Sprintf("go_call (%s %s) (fun '(%s) => ", fn.name, strings.Join(args, " "), strings.Join(tmps, ", ")), ")"})
 		for i, l := range s.Lhs {
@@ -1703,11 +1729,22 @@ func (t *impTr) function(fd *ast.FuncDecl, coqName string) *impFn {
 		if ret, ok := body[0].(*ast.ReturnStmt); ok && len(ret.Results) == 1 {
 			if fl, ok := ret.Results[0].(*ast.FuncLit); ok && len(fl.Type.Params.List) == 1 && len(fl.Type.Params.List[0].Names) == 1 {
 				y := t.info.Defs[fl.Type.Params.List[0].Names[0]]
-				if ys, ok := y.Type().(*types.Signature); ok && ys.Params().Len() == 1 {
+				if ys, ok := y.Type().(*types.Signature); ok && (ys.Params().Len() == 1 || ys.Params().Len() == 2) {
 					t.yield = y
-					rt = "(list " + t.ty(ys.Params().At(0).Type()) + ")"
-					t.retWrap = func(string) string { return "Ret out__" }
-					text = "let out__ := [] in " + t.block(fl.Body.List, "Ret out__", nil)
+					rt = "(list " + t.ty(ys.Params()) + ")"
+					if ys.Params().Len() == 1 {
+						rt = "(list " + t.ty(ys.Params().At(0).Type()) + ")"
+					}
+					ret := "Ret out__"
+					if t.stream {
+						ret = "Ret (rd__, out__)"
+						rt = "(" + t.streamTy + " * " + rt + ")"
+					}
+					t.retWrap = func(string) string { return ret }
+					text = "let out__ : " + strings.TrimSuffix(strings.TrimPrefix(rt, "("+t.streamTy+" * "), ")") + " := [] in " + t.block(fl.Body.List, ret, nil)
+					if !t.stream {
+						text = "let out__ := [] in " + t.block(fl.Body.List, ret, nil)
+					}
 				}
 			}
 		}
@@ -1778,7 +1815,7 @@ func (t *impTr) function(fd *ast.FuncDecl, coqName string) *impFn {
 		}
 		text = wrapOpeners(pre, t.block(body, end, nil))
 	}
-	fn := &impFn{name: coqName, fuel: t.fuel}
+	fn := &impFn{name: coqName, fuel: t.fuel, stream: t.stream}
 	fuel := ""
 	if fn.fuel {
 		fuel = "(fuel : nat) "
